@@ -21,12 +21,20 @@ func init() {
 				bound := 2
 				shards = 4
 				// the 48->256 grow loops over 256 slots (~1.5k points): bound 1 in the quick tier, 2 in thorough
-				if sc.Name == "private-2/n48up-n48up-prefilled" || strings.HasPrefix(sc.Name, "readers-2/uint8-wide") || sc.Name == "private-2/collation-collation" || strings.HasPrefix(sc.Name, "readers-2/alpha-every-query") {
+				if sc.Name == "private-2/n48up-n48up-prefilled" || sc.Name == "private-2/n256down-n48up" || strings.HasPrefix(sc.Name, "readers-2/uint8-wide") || sc.Name == "private-2/collation-collation" || strings.HasPrefix(sc.Name, "readers-2/alpha-every-query") {
 					if tier == "thorough" {
 						shards = 16
 					} else {
 						bound = 1
 						shards = 1
+					}
+				}
+				// a complete traversal of a 200-child node is thousands of points: one preemption in both tiers
+				// (two would be ~10^7 schedules of ~10^3..10^4 steps each); what this scenario is for is the -race pass
+				if sc.Name == "readers-2/uint8-wide-iterate" {
+					bound, shards = 1, 1
+					if tier == "thorough" {
+						shards = 4
 					}
 				}
 				// bound 3 multiplies the schedule count by ~n/3: only the two smallest scenarios get it
